@@ -356,3 +356,26 @@ def report_counted(acc, rule, bounds, exhaustive=False, max_violations=25):
     rep['violations_total'] = sum(n for k, n in acc['counters'].items() if k.startswith('viol:'))
     rep['violation_groups'] = len({(v['kind'], tuple(v['tags'])) for v in acc['violations']})
     return rep
+
+
+def large_values():
+    """Values of sizes no enumeration reaches (long containers, long strings, wide and deep mixtures): a fault guarded by a
+    size threshold shows only here."""
+    out = [
+        list(range(60)), tuple(range(45)), set(range(40)), frozenset(range(35)),
+        {i: str(i) for i in range(40)}, {'key%02d' % i: list(range(i % 7)) for i in range(24)},
+        [[i, [i, [i]]] for i in range(25)], [(i, i) for i in range(40)],
+        'word ' * 60, 'x' * 250, "it's \"quoted\" " * 20, b'ab ' * 80, 'line one\nline two ' * 15,
+        [('name%d' % i, {'a': i, 'b': [i] * 5, 'c': 'text ' * 6}) for i in range(12)],
+        {('k', i): frozenset({i, i + 1}) for i in range(20)},
+        [1.5, -0.0, float('inf'), None, True, ...] * 8,
+    ]
+    deep = 0
+    for _ in range(14):
+        deep = [deep]
+    out.append(deep)
+    d = 'leaf'
+    for i in range(10):
+        d = {'level%d' % i: d, 'n': i}
+    out.append(d)
+    return out
